@@ -165,12 +165,17 @@ Record cfg := {
                                i.e. again when a job that waited for limits is re-nominated; false: once per job *)
   read_after_incr : bool;   (* `handle_forks[h] += 1` happens before `call_order = handle_forks[h]` *)
   root_order : nat;         (* call_order of a job without parent *)
-  key_reuse : bool          (* `self.__handle__.key or str(call_order)` *)
+  key_reuse : bool;         (* `self.__handle__.key or str(call_order)` *)
+  forks_per_parent : bool   (* true: every Job has its own `handle_forks` (the counter a child uses is its PARENT job's);
+                               false: all jobs of an execution share one counter *)
 }.
 Definition shipped : cfg :=
-  {| pre_every_entry := true; read_after_incr := true; root_order := 0; key_reuse := true |}.
+  {| pre_every_entry := true; read_after_incr := true; root_order := 0; key_reuse := true; forks_per_parent := true |}.
 Definition fixed : cfg :=
-  {| pre_every_entry := false; read_after_incr := true; root_order := 0; key_reuse := true |}.
+  {| pre_every_entry := false; read_after_incr := true; root_order := 0; key_reuse := true; forks_per_parent := true |}.
+(** one counter per execution (seeded change C07c): refuted, Props/C07.v *)
+Definition per_execution : cfg :=
+  {| pre_every_entry := false; read_after_incr := true; root_order := 0; key_reuse := true; forks_per_parent := false |}.
 
 (** `Job.handle_forks`: defaultdict(int) keyed by the handle hash *)
 Definition forks := list (value * nat).
@@ -350,12 +355,15 @@ Section Machine.
     match j_parent jb with
     | None => Some (s, keys_l c (root_order c) raw)
     | Some p =>
-        match nth_error s p with
+        (* the job holding the counter: the parent, or — one counter per execution — the root job, which
+           is evaluating its result as long as any other job exists *)
+        let q := if forks_per_parent c then p else 0 in
+        match nth_error s q with
         | Some pj =>
             match j_st pj with
             | SEval praw ppre e kids f =>
                 let '(f', pre) := prep_l c f raw in
-                Some (set_st s p (SEval praw ppre e kids f'), pre)
+                Some (set_st s q (SEval praw ppre e kids f'), pre)
             | _ => None
             end
         | None => None
